@@ -161,6 +161,7 @@ type GoccResult struct {
 type GoccOpts struct {
 	Flags      []string // flags other than -o
 	Ext        string   // ".bnf" (default) or ".md"
+	SrcBase    string   // base name of the source file (default: the run's name); the extension is appended
 	OutSub     string   // output directory relative to the module root (default: Name)
 	NoOut      bool     // do not pass -o at all (gocc writes into its working directory)
 	WorkSub    string   // run gocc from this sub directory of the module (default: root)
@@ -182,7 +183,11 @@ func (w *Workspace) RunGocc(name string, src []byte, o GoccOpts) GoccResult {
 		workDir = filepath.Join(w.Dir, o.WorkSub)
 		os.MkdirAll(workDir, 0777)
 	}
-	srcPath := filepath.Join(workDir, name+ext)
+	srcBase := name
+	if o.SrcBase != "" {
+		srcBase = o.SrcBase
+	}
+	srcPath := filepath.Join(workDir, srcBase+ext)
 	if err := os.WriteFile(srcPath, src, 0666); err != nil {
 		return GoccResult{Name: name, Exit: -1, Stderr: err.Error()}
 	}
@@ -212,7 +217,7 @@ func (w *Workspace) RunGocc(name string, src []byte, o GoccOpts) GoccResult {
 		args = append(args, "-o", outSub)
 	}
 	args = append(args, o.Flags...)
-	args = append(args, name+ext)
+	args = append(args, srcBase+ext)
 	ctx, cancel := context.WithTimeout(context.Background(), wall)
 	defer cancel()
 	cmd := exec.CommandContext(ctx, "prlimit", args...)
